@@ -173,7 +173,7 @@ contract('Queue._pool_spawn', kind='extern', model=_pool_spawn,
 assume_note('store_pool / relay_pool unbounded: Pool.spawn does not block (bounded pools are outside what is decided)')
 
 GH = ['contents(self.pending_dequeue)', 'contents(self.attempting)', 'contents(self.pending_retry)',
-      'contents(self.removed)', 'contents(self.bounces)', 'contents(self.permfails)']
+      'contents(self.removed)', 'contents(self.bounces)', 'self.sbr_gidx', 'self.sbr_gpos', 'contents(self.permfails)']
 
 contract('Queue._add_queued', module=M, props=['C12', 'C03'],
          params={'self': 'Queue', 'entry': 'Entry'},
@@ -324,6 +324,14 @@ predicate('GROUPS_ok(groups, envelope, n)',
           '           and groups[a][1].recipients is not groups[b][1].recipients '
           '           and not (groups[a][0] == groups[b][0]))')
 
+def _arr_zero(st, args):
+    return Val(T.parse_type('ArrV[Int]'), z3.K(z3.IntSort(), z3.IntVal(0)))
+
+
+calls.SPECFUNS['arr_zero'] = _arr_zero
+# ghost result of the last _split_by_reply call: recipient position -> index of the group it was put into
+klass('Queue', ghost={'sbr_gidx': 'ArrV[Int]', 'sbr_gpos': 'ArrV[Int]'})
+
 contract('Queue._split_by_reply', module=M, props=['C13', 'C01'],
          params={'self': 'Queue', 'envelope': 'Envelope', 'replies': 'Union[Reply, List[Reply]]'},
          returns='List[Tuple[Reply, Envelope]]',
@@ -345,14 +353,32 @@ contract('Queue._split_by_reply', module=M, props=['C13', 'C01'],
                   '   exists(range(0, len(envelope.recipients)), lambda i: envelope.recipients[i] == r '
                   '          and cast(replies, List[Reply])[i] == g[0]))))',
                   'implies(len(envelope.recipients) > 0, len(result) > 0)',
+                  # ghost: the group recipient i was put into
+                  'implies(is_type(replies, List[Reply]), forall(range(0, len(envelope.recipients)), lambda i: '
+                  '   0 <= self.sbr_gidx[i] and self.sbr_gidx[i] < len(result) '
+                  '   and result[self.sbr_gidx[i]][0] == cast(replies, List[Reply])[i] '
+                  '   and 0 <= self.sbr_gpos[i] and self.sbr_gpos[i] < len(result[self.sbr_gidx[i]][1].recipients) '
+                  '   and result[self.sbr_gidx[i]][1].recipients[self.sbr_gpos[i]] == envelope.recipients[i]))',
+                  'implies(is_type(replies, Reply), forall(Int, lambda i: self.sbr_gidx[i] == 0 and self.sbr_gpos[i] == i))',
                   # the group replies are the caller's reply objects themselves
                   'implies(is_type(replies, List[Reply]), forall(result, lambda g: '
                   '   exists(range(0, len(envelope.recipients)), lambda i: same(g[0], cast(replies, List[Reply])[i]))))',
                   'seq(envelope.recipients) == old(seq(envelope.recipients))'],
-         modifies=[], locals={'groups': 'List[Tuple[Reply, Envelope]]'},
-         loops={0: dict(modifies=['fresh'],
+         modifies=['self.sbr_gidx', 'self.sbr_gpos'], locals={'groups': 'List[Tuple[Reply, Envelope]]'},
+         # (ghost FIELDS, not ghost locals: the inner loop would havoc ghost locals)
+         ghost_entry=['self.sbr_gidx = arr_zero()', 'self.sbr_gpos = arr_ident()'],
+         ghost_after={'group_env.recipients.append(rcpt)': ['self.sbr_gidx = store(self.sbr_gidx, i, _k1)',
+                                                            'self.sbr_gpos = store(self.sbr_gpos, i, len(group_env.recipients) - 1)'],
+                      'groups.append((replies[i], group_env))': ['self.sbr_gidx = store(self.sbr_gidx, i, len(groups) - 1)',
+                                                                 'self.sbr_gpos = store(self.sbr_gpos, i, 0)']},
+         loops={0: dict(modifies=['fresh', 'self.sbr_gidx', 'self.sbr_gpos'],
                         inv=['GROUPS_ok(groups, envelope, _k)',
                              'fresh(groups)', 'implies(_k > 0, len(groups) > 0)',
+                             # where recipient i went (explicit witness for the forall-exists clauses below)
+                             'forall(range(0, _k), lambda i: 0 <= self.sbr_gidx[i] and self.sbr_gidx[i] < len(groups))',
+                             'forall(range(0, _k), lambda i: groups[self.sbr_gidx[i]][0] == replies[i])',
+                             'forall(range(0, _k), lambda i: 0 <= self.sbr_gpos[i] and self.sbr_gpos[i] < len(groups[self.sbr_gidx[i]][1].recipients))',
+                             'forall(range(0, _k), lambda i: groups[self.sbr_gidx[i]][1].recipients[self.sbr_gpos[i]] == envelope.recipients[i])',
                              'forall(range(0, _k), lambda i: implies(trig(i), exists(groups, lambda g: g[0] == replies[i] '
                              '       and envelope.recipients[i] in seq(g[1].recipients))), trigger=lambda i: trig(i))',
                              'forall(groups, lambda g: forall(g[1].recipients, lambda r: '
@@ -396,12 +422,16 @@ contract('Queue._retry_later', module=M, props=['C01', 'C12', 'C13', 'C03'], yie
                   'implies(not result and bool(envelope.sender) and len(envelope.recipients) > 0, '
                   '        len(self.bounces) > old(len(self.bounces)))',
                   'implies(not result and not bool(envelope.sender), len(self.bounces) == old(len(self.bounces)))',
+                  # every outstanding recipient is named in a bounce to the original sender -- in the bounce of its own
+                  # reply group (sbr_gidx: ghost result of _split_by_reply)
                   'implies(not result and bool(envelope.sender), forall(range(0, len(envelope.recipients)), lambda i: '
-                  '   implies(trig(i), exists(range(old(len(self.bounces)), len(self.bounces)), lambda b: '
-                  '       envelope.recipients[i] in seq(self.bounces[b][0].recipients) '
-                  '       and self.bounces[b][0].sender == envelope.sender)), trigger=lambda i: trig(i)))',
+                  '   old(len(self.bounces)) + self.sbr_gidx[i] < len(self.bounces) and 0 <= self.sbr_gidx[i] '
+                  '   and 0 <= self.sbr_gpos[i] '
+                  '   and self.sbr_gpos[i] < len(self.bounces[old(len(self.bounces)) + self.sbr_gidx[i]][0].recipients) '
+                  '   and self.bounces[old(len(self.bounces)) + self.sbr_gidx[i]][0].recipients[self.sbr_gpos[i]] == envelope.recipients[i] '
+                  '   and self.bounces[old(len(self.bounces)) + self.sbr_gidx[i]][0].sender == envelope.sender))',
                   'forall(range(0, old(len(self.bounces))), lambda j: same(self.bounces[j], old(seq(self.bounces))[j]))'],
-         modifies=['contents(self.queued)', 'contents(self.queued_ids)', 'self.queued', 'self.queued_ids', 'contents(self.active_ids)', 'self.wake.flag', 'contents(self.pending_dequeue)', 'contents(self.attempting)', 'contents(self.pending_retry)', 'contents(self.removed)', 'contents(self.bounces)',
+         modifies=['contents(self.queued)', 'contents(self.queued_ids)', 'self.queued', 'self.queued_ids', 'contents(self.active_ids)', 'self.wake.flag', 'contents(self.pending_dequeue)', 'contents(self.attempting)', 'contents(self.pending_retry)', 'contents(self.removed)', 'contents(self.bounces)', 'self.sbr_gidx', 'self.sbr_gpos',
                    'self.store.rs_attempts', 'self.store.rs_ts', 'any(Reply).message', 'fresh'],
          loops={0: dict(modifies=['contents(self.bounces)', 'any(Reply).message', 'contents(self.removed)',
                                   'contents(self.queued_ids)', 'contents(self.active_ids)', 'contents(self.attempting)'],
@@ -413,8 +443,8 @@ contract('Queue._retry_later', module=M, props=['C01', 'C12', 'C13', 'C03'], yie
                              'id in self.attempting and id in self.active_ids and id not in self.queued_ids',
                              'implies(not bool(envelope.sender), len(self.bounces) == old(len(self.bounces)))',
                              'implies(bool(envelope.sender), len(self.bounces) == old(len(self.bounces)) + _k)',
-                             'forall(range(0, _k), lambda j: implies(bool(envelope.sender), '
-                             '       self.bounces[old(len(self.bounces)) + j][0] is _seq0[j][1]))',
+                             'implies(bool(envelope.sender), forall(range(old(len(self.bounces)), len(self.bounces)), lambda b: '
+                             '       self.bounces[b][0] is _seq0[b - old(len(self.bounces))][1], trigger=lambda b: self.bounces[b]))',
                              'forall(range(0, old(len(self.bounces))), lambda j: same(self.bounces[j], old(seq(self.bounces))[j]))'])})
 
 
@@ -461,7 +491,7 @@ contract('Queue._handle_partial_relay', module=M, props=['C01', 'C03', 'C13'], y
              # a message is marked at most once per attempt, and only when some recipient is still outstanding
              'ncalls("QueueStorage.set_recipients_delivered") <= 1',
              'implies(ncalls("QueueStorage.set_recipients_delivered") == 1, exists(envelope.recipients, lambda r: transient(dict_get(results, r))))'],
-         modifies=['contents(self.queued)', 'contents(self.queued_ids)', 'self.queued', 'self.queued_ids', 'contents(self.active_ids)', 'self.wake.flag', 'contents(self.pending_dequeue)', 'contents(self.attempting)', 'contents(self.pending_retry)', 'contents(self.removed)', 'contents(self.bounces)', 'self.store.rs_attempts', 'self.store.rs_ts', 'self.store.rs_has', 'self.store.rs_rcpts', 'self.store.rs_nrcpts', 'self.store.last_marks', 'self.store.last_marked_id', 'self.store.n_marks', 'any(Reply).message', 'fresh'],
+         modifies=['contents(self.queued)', 'contents(self.queued_ids)', 'self.queued', 'self.queued_ids', 'contents(self.active_ids)', 'self.wake.flag', 'contents(self.pending_dequeue)', 'contents(self.attempting)', 'contents(self.pending_retry)', 'contents(self.removed)', 'contents(self.bounces)', 'self.sbr_gidx', 'self.sbr_gpos', 'self.store.rs_attempts', 'self.store.rs_ts', 'self.store.rs_has', 'self.store.rs_rcpts', 'self.store.rs_nrcpts', 'self.store.last_marks', 'self.store.last_marked_id', 'self.store.n_marks', 'any(Reply).message', 'fresh'],
          locals={'delivered': 'Set[Int]', 'tempfails': 'List[Tuple[Str, Reply]]',
                  'permfails': 'List[Tuple[Str, Reply]]'},
          loops={0: dict(modifies=['fresh'],
@@ -485,8 +515,8 @@ contract('Queue._handle_partial_relay', module=M, props=['C01', 'C03', 'C13'], y
                              'setv(self.removed) == old(setv(self.removed))',
                              'implies(not bool(envelope.sender), len(self.bounces) == old(len(self.bounces)))',
                              'implies(bool(envelope.sender), len(self.bounces) == old(len(self.bounces)) + _k)',
-                             'forall(range(0, _k), lambda j: implies(bool(envelope.sender), '
-                             '       self.bounces[old(len(self.bounces)) + j][0] is _seq1[j][1]))',
+                             'implies(bool(envelope.sender), forall(range(old(len(self.bounces)), len(self.bounces)), lambda b: '
+                             '       self.bounces[b][0] is _seq1[b - old(len(self.bounces))][1], trigger=lambda b: self.bounces[b]))',
                              'forall(range(0, old(len(self.bounces))), lambda j: same(self.bounces[j], old(seq(self.bounces))[j]))'])})
 
 # ---------------------------------------------------------------------------- one delivery attempt (C01)
@@ -572,7 +602,7 @@ contract('Queue._attempt', module=M, props=['C01', 'C03', 'C13'], yields=True,
              # unexpected exception: treated as transient (retry pending), then propagated
              'self.relay.last_outcome == 5', 'id in self.pending_retry',
              'setv(self.removed) == old(setv(self.removed))', 'len(self.bounces) == old(len(self.bounces))']},
-         modifies=['contents(self.queued)', 'contents(self.queued_ids)', 'self.queued', 'self.queued_ids', 'contents(self.active_ids)', 'self.wake.flag', 'contents(self.pending_dequeue)', 'contents(self.attempting)', 'contents(self.pending_retry)', 'contents(self.removed)', 'contents(self.bounces)', 'self.relay.last_outcome',
+         modifies=['contents(self.queued)', 'contents(self.queued_ids)', 'self.queued', 'self.queued_ids', 'contents(self.active_ids)', 'self.wake.flag', 'contents(self.pending_dequeue)', 'contents(self.attempting)', 'contents(self.pending_retry)', 'contents(self.removed)', 'contents(self.bounces)', 'self.sbr_gidx', 'self.sbr_gpos', 'self.relay.last_outcome',
                    'self.store.rs_attempts', 'self.store.rs_ts', 'self.store.rs_has', 'self.store.rs_rcpts', 'self.store.rs_nrcpts', 'self.store.last_marks', 'self.store.last_marked_id', 'self.store.n_marks', 'any(Reply).message', 'fresh'])
 
 contract('Queue._dequeue', module=M, props=['C03', 'C12'], yields=True,
